@@ -545,6 +545,9 @@ class ExcelCompiler:
 
     def recalculate(self):
         """Recalculate all of the known cells"""
+        # from here on cells are calculated, cells built later do not start
+        # from their stored result while what they depend on has no value
+        self._inputs_changed = True
         for cell in self.cell_map.values():
             if isinstance(cell, _CellRange) or cell.formula:
                 cell.value = None
